@@ -94,7 +94,7 @@ func (v *fnVC) havocAll(why string) {
 	before := copyMap(v.cur)
 	defer v.keepPrivateCells(before)
 	for m := range v.memSrt {
-		if m == allocMem || m == deferMem || m == visMem || strings.HasPrefix(m, "L_") {
+		if m == allocMem || m == deferMem || m == visMem || m == rvMem || strings.HasPrefix(m, "L_") {
 			continue // ghost state and non-escaping locals are out of a callee's reach (the allocation set only grows)
 		}
 		c := v.newConst(m, fmt.Sprintf("(Array Int %s)", v.memSrt[m]))
@@ -128,6 +128,45 @@ func (v *fnVC) calleeKey(c *ssa.CallCommon) (pkg, key string, fn *ssa.Function) 
 }
 
 const deferMem = "DEFER"
+
+// rvMem: ghost memory for the content version of reflect storage (the variables and objects reflect.Value handles
+// refer to), indexed by storage root. It changes only through the rvwrites items of callee contracts (assumed
+// summaries of their effect on reflect storage); a call into the module, through an interface or of a function
+// value whose contract has no rvwrites directive may write any storage: the whole memory is havoc'd. Used only
+// by functions whose contract mentions rvver (C13).
+const rvMem = "RV"
+
+func (v *fnVC) rvEffect(con *Contract, env *Env, pkg, key string) {
+	if !v.usesRV {
+		return
+	}
+	v.memSrt[rvMem] = "Int"
+	havoc := func() { v.cur[rvMem] = v.newConst(rvMem, "(Array Int Int)") }
+	switch {
+	case con != nil && con.RvWrites != nil:
+		for _, it := range con.RvWrites {
+			switch it {
+			case "nothing":
+			case "*":
+				havoc()
+			default:
+				e, err := parseExpr(it)
+				if err != nil {
+					panic(fmt.Sprintf("rvwrites %q: %v", it, err))
+				}
+				t, _ := v.tr(e, env)
+				v.setMem(rvMem, sto(v.memOrEntry(rvMem), t, v.newConst("rvver", "Int")))
+			}
+		}
+		v.notes = append(v.notes, "assume (rvwrites): "+key+" writes reflect storage only at: "+strings.Join(con.RvWrites, ", "))
+	case pkg == "reflect" && !(strings.Contains(key, ").Set") || key == "Copy"):
+		// reflect functions other than the setters do not write through the handles
+	case con != nil && con.Extern && pkg != "reflect":
+		// other external functions do not write through reflect handles
+	default:
+		havoc()
+	}
+}
 
 func (v *fnVC) deferSite(d *ssa.Defer) {
 	k := len(v.defers)
@@ -255,6 +294,7 @@ func (v *fnVC) applyCall(c *ssa.CallCommon, x *ssa.Call, pos token.Pos, cond T) 
 		// a callee that receives a reference (pointer, slice, map, interface, function) may write through it: the
 		// heap is havoc'd (private cells survive); with scalar and string arguments only, it is assumed not to
 		// touch library state
+		v.rvEffect(nil, nil, "", "dynamic call")
 		refArg := false
 		for _, a := range c.Args {
 			switch a.Type().Underlying().(type) {
@@ -289,6 +329,9 @@ func (v *fnVC) applyCall(c *ssa.CallCommon, x *ssa.Call, pos token.Pos, cond T) 
 		return
 	}
 	if con == nil {
+		if (callee != nil && callee.Pkg != nil && strings.HasPrefix(callee.Pkg.Pkg.Path(), modPrefix)) || c.IsInvoke() || callee == nil || pkg == "reflect" {
+			v.rvEffect(nil, nil, pkg, key)
+		}
 		inMod := callee != nil && callee.Pkg != nil && strings.HasPrefix(callee.Pkg.Pkg.Path(), modPrefix)
 		extIface := c.IsInvoke() && pkg != "" && !strings.HasPrefix(pkg, modPrefix) // method of an external interface (reflect.Type, ...)
 		if (c.IsInvoke() && !extIface) || inMod || (callee == nil && !c.IsInvoke()) {
@@ -332,6 +375,7 @@ func (v *fnVC) applyCall(c *ssa.CallCommon, x *ssa.Call, pos token.Pos, cond T) 
 			v.oblige("pre@"+key, r.Text, t, pos)
 		}
 	}
+	v.rvEffect(con, env, pkg, key)
 	if v.con != nil {
 		for _, r := range v.con.AtCall[key] {
 			t, _ := v.tr(r.E, env)
@@ -502,7 +546,7 @@ func (v *fnVC) applyModifies(con *Contract, env *Env) {
 			var ks []string
 			for k := range v.memSrt {
 				// ghost state (allocation set, armed defers, visited keys) and non-escaping locals are not heap objects
-				if k != allocMem && k != deferMem && k != visMem && !strings.HasPrefix(k, "L_") {
+				if k != allocMem && k != deferMem && k != visMem && k != rvMem && !strings.HasPrefix(k, "L_") {
 					ks = append(ks, k)
 				}
 			}
@@ -522,7 +566,7 @@ func (v *fnVC) applyModifies(con *Contract, env *Env) {
 			ref := v.refOf(t, ty)
 			var ks []string
 			for k := range v.memSrt {
-				if k != allocMem && k != deferMem && k != visMem && !strings.HasPrefix(k, "L_") && !strings.HasPrefix(k, "MD_") && !strings.HasPrefix(k, "MV_") {
+				if k != allocMem && k != deferMem && k != visMem && k != rvMem && !strings.HasPrefix(k, "L_") && !strings.HasPrefix(k, "MD_") && !strings.HasPrefix(k, "MV_") {
 					ks = append(ks, k)
 				}
 			}
@@ -1055,6 +1099,11 @@ func (v *fnVC) loopHead(li *loopInfo, preds []*ssa.BasicBlock, conds []T) {
 		v.loopFrame(ks)
 		v.stableCells(li, preMem)
 	}
+	if v.usesRV {
+		// reflect storage: unknown after an arbitrary number of iterations (the invariant says what is kept)
+		v.memSrt[rvMem] = "Int"
+		v.cur[rvMem] = v.newConst(rvMem, "(Array Int Int)")
+	}
 	v.allocGrow()
 	for _, phi := range phis {
 		v.havoc(phi)
@@ -1081,7 +1130,7 @@ func (v *fnVC) modSortsOfContract(con *Contract, x *ssa.Call, mod map[string]boo
 	callee := x.Call.StaticCallee()
 	if callee == nil {
 		for m := range v.memSrt {
-			if m != allocMem && m != deferMem && m != visMem && !strings.HasPrefix(m, "L_") {
+			if m != allocMem && m != deferMem && m != visMem && m != rvMem && !strings.HasPrefix(m, "L_") {
 				mod[m] = true
 			}
 		}
@@ -1115,7 +1164,7 @@ func (v *fnVC) modSortsOfContract(con *Contract, x *ssa.Call, mod map[string]boo
 		}
 		if strings.HasPrefix(m, "tree(") {
 			for k := range v.memSrt {
-				if k != allocMem && k != deferMem && k != visMem && !strings.HasPrefix(k, "L_") {
+				if k != allocMem && k != deferMem && k != visMem && k != rvMem && !strings.HasPrefix(k, "L_") {
 					mod[k] = true
 				}
 			}
@@ -1123,7 +1172,7 @@ func (v *fnVC) modSortsOfContract(con *Contract, x *ssa.Call, mod map[string]boo
 		}
 		if strings.HasPrefix(m, "obj(") {
 			for k := range v.memSrt {
-				if k != allocMem && k != deferMem && k != visMem && !strings.HasPrefix(k, "L_") && !strings.HasPrefix(k, "MD_") && !strings.HasPrefix(k, "MV_") {
+				if k != allocMem && k != deferMem && k != visMem && k != rvMem && !strings.HasPrefix(k, "L_") && !strings.HasPrefix(k, "MD_") && !strings.HasPrefix(k, "MV_") {
 					mod[k] = true
 				}
 			}
